@@ -802,8 +802,10 @@ int dhcp_fastpath_prog(struct xdp_md *ctx) {
 	int delta = (int)total_len - (int)orig_len;
 	if (delta != 0) {
 		if (bpf_xdp_adjust_tail(ctx, delta) != 0) {
+			/* The reply has already been written over the request in
+			 * place: the slow path must not see that frame. */
 			update_stat(STAT_ERROR);
-			return XDP_PASS;
+			return XDP_DROP;
 		}
 		/* Note: After adjust_tail, packet pointers are invalidated.
 		 * We've already written all header fields, so we can proceed
